@@ -104,10 +104,10 @@ impl TlsHandshaker {
         let config = self.client_config()?;
         let mut session = ClientConnection::new(config, domain)?;
 
-        while let Err(err) = session.complete_io(&mut stream) {
-            if err.kind() != io::ErrorKind::WouldBlock || !session.is_handshaking() {
-                return Err(err.into());
-            }
+        // The sockets are blocking ones: a read that "would block" is a read that ran into the read timeout, which ends
+        // the handshake like any other I/O error.
+        while session.is_handshaking() {
+            session.complete_io(&mut stream)?;
         }
 
         Ok(TlsStream {
